@@ -1,5 +1,6 @@
-/-! K7 lemmas: register bookkeeping, the cache state machine invariant, loop flattening, renaming. -/
 import SFV.Model.Tdm
+/-! K7 lemmas: register bookkeeping, the cache state machine invariant over all call histories,
+loop flattening, permutation / rotation facts about the register shift. -/
 namespace SFV.Tdm
 
 def initRefs (C : Nat) : List (Nat × Bool) := (List.range C).map fun i => (i, true)
@@ -217,4 +218,147 @@ theorem step_locked {cfg : Cfg} {prog : List TCmd} {s : St} (h : Inv cfg prog s)
   | roll => simpa [St.step] using (roll_isRolled h).2
   | run sh sp cr => simp only [St.step]; rw [run_state h]; simp
   | lock => simp [St.step]
+
+/-- the register at global bin `g`: `g` shifts applied -/
+def regAt (cfg : Cfg) (space : Bool) : Nat → List Nat → List Nat
+  | 0, q => q
+  | g + 1, q => regAt cfg space g (shiftStep cfg space q)
+
+theorem regAt_add (cfg : Cfg) (space : Bool) (a b : Nat) (q : List Nat) :
+    regAt cfg space (a + b) q = regAt cfg space b (regAt cfg space a q) := by
+  induction a generalizing q with
+  | zero => simp [regAt]
+  | succ a ih => rw [Nat.succ_add]; simp [regAt, ih]
+
+theorem flatMap_congr' {α β : Type} {l : List α} {f g : α → List β} (h : ∀ a ∈ l, f a = g a) :
+    l.flatMap f = l.flatMap g := by
+  induction l with
+  | nil => rfl
+  | cons a l ih =>
+    simp only [List.flatMap_cons]
+    rw [h a (by simp), ih (fun b hb => h b (by simp [hb]))]
+
+/-- the commands of one bin when nothing is filtered -/
+def binCmds (cfg : Cfg) (rolled : List TCmd) (q : List Nat) (t : Nat) : List TCmd :=
+  rolled.map fun c => applyOp cfg c (getModes q c) t
+
+theorem binStep_shift (cfg : Cfg) (q : List Nat) (t : Nat) (rolled : List TCmd) (prev : List Nat)
+    (h : prev.length = rolled.length) :
+    (binStep cfg false q t rolled prev).1 = binCmds cfg rolled q t ∧
+    (binStep cfg false q t rolled prev).2.length = rolled.length := by
+  induction rolled generalizing prev with
+  | nil => simp [binStep, binCmds]
+  | cons c cs ih =>
+    cases prev with
+    | nil => simp at h
+    | cons p ps =>
+      have := ih ps (by simpa using h)
+      simp only [binStep, binCmds] at this ⊢
+      simp [List.zipWith, stepCmd, this.1]
+      have h' : ps.length = cs.length := by simpa using h
+      omega
+
+theorem binsLoop_shift (cfg : Cfg) (rolled : List TCmd) (ts : List Nat) (q prev : List Nat)
+    (h : prev.length = rolled.length) :
+    (binsLoop cfg false rolled ts q prev).1 =
+      (List.range ts.length).flatMap (fun j => binCmds cfg rolled (regAt cfg false j q) (ts.getD j 0)) ∧
+    (binsLoop cfg false rolled ts q prev).2 = regAt cfg false ts.length q := by
+  induction ts generalizing q prev with
+  | nil => simp [binsLoop, regAt]
+  | cons t ts ih =>
+    have hb := binStep_shift cfg q t rolled prev h
+    have := ih (shiftStep cfg false q) (binStep cfg false q t rolled prev).2 hb.2
+    simp only [binsLoop, List.length_cons, regAt]
+    rw [this.1, this.2, hb.1, List.range_succ_eq_map, List.flatMap_cons, List.flatMap_map]
+    simp [regAt]
+
+theorem shotsLoop_shift (cfg : Cfg) (rolled : List TCmd) (shots : Nat) (q : List Nat) :
+    shotsLoop cfg false rolled shots q =
+      (List.range shots).flatMap fun s => (List.range cfg.timebins).flatMap fun i =>
+        binCmds cfg rolled (regAt cfg false (s * cfg.timebins + i) q) i := by
+  induction shots generalizing q with
+  | zero => simp [shotsLoop]
+  | succ n ih =>
+    have hb := binsLoop_shift cfg rolled (List.range cfg.timebins) q (rolled.map fun _ => 0) (by simp)
+    simp only [shotsLoop]
+    rw [hb.1, hb.2, ih, List.range_succ_eq_map, List.flatMap_cons, List.flatMap_map]
+    congr 1
+    · rw [List.length_range]
+      apply flatMap_congr'
+      intro j hj
+      simp at hj
+      simp [hj]
+    · apply flatMap_congr'
+      intro s _
+      apply flatMap_congr'
+      intro i _
+      simp only [List.length_range]
+      rw [← regAt_add]
+      congr 2
+      rw [Nat.succ_mul]; omega
+theorem shiftBy_perm {α : Type} (l : List α) (n : Int) : (shiftBy l n).Perm l := by
+  unfold shiftBy
+  exact (List.perm_append_comm).trans (by rw [List.take_append_drop])
+
+theorem shiftBandsFrom_perm {α : Type} (s : Nat) (N : List Nat) (q : List α) :
+    (shiftBandsFrom s N q).Perm q := by
+  induction N generalizing s q with
+  | nil => exact List.Perm.refl _
+  | cons n ns ih =>
+    simp only [shiftBandsFrom]
+    refine (ih _ _).trans ?_
+    have h1 : (q.take s ++ shiftBy ((q.drop s).take n) 1 ++ q.drop (s + n)).Perm
+        (q.take s ++ (q.drop s).take n ++ q.drop (s + n)) :=
+      ((List.Perm.refl _).append (shiftBy_perm _ _)).append (List.Perm.refl _)
+    refine h1.trans ?_
+    have : q.take s ++ (q.drop s).take n ++ q.drop (s + n) = q := by
+      rw [List.append_assoc, ← List.drop_drop, List.take_append_drop, List.take_append_drop]
+    rw [this]
+
+theorem shiftStep_perm (cfg : Cfg) (space : Bool) (q : List Nat) : (shiftStep cfg space q).Perm q := by
+  unfold shiftStep
+  split
+  · exact shiftBy_perm _ _
+  · split
+    · exact shiftBandsFrom_perm _ _ _
+    · exact shiftBy_perm _ _
+    · exact List.Perm.refl _
+
+/-- at every bin the register is a rearrangement of the initial register: slot ↦ subsystem is a bijection -/
+theorem regAt_perm (cfg : Cfg) (space : Bool) (g : Nat) (q : List Nat) : (regAt cfg space g q).Perm q := by
+  induction g generalizing q with
+  | zero => exact List.Perm.refl _
+  | succ g ih => exact (ih _).trans (shiftStep_perm cfg space q)
+
+/-- renaming the subsystems of a bin's command by "slot currently holding it" gives back the slots -/
+theorem getModes_idxOf (q : List Nat) (hq : q.Nodup) (c : TCmd) (hc : ∀ j ∈ c.regs, j < q.length) :
+    (getModes q c).map (fun m => q.idxOf m) = c.regs := by
+  unfold getModes
+  rw [List.map_map]
+  conv => rhs; rw [← List.map_id c.regs]
+  apply List.map_congr_left
+  intro j hj
+  have hlt := hc j hj
+  simp only [Function.comp, id]
+  have : q.getD j 0 = q[j] := by simp [List.getD_eq_getElem?_getD, hlt]
+  rw [this]
+  exact List.Nodup.idxOf_getElem hq j hlt
+
+/-- rotation by one step: slot `j` receives what slot `j+1` held, the last slot what slot 0 held -/
+theorem shiftBy_one_getD (q : List Nat) (j : Nat) (h : j + 1 < q.length) :
+    (shiftBy q 1).getD j 0 = q.getD (j + 1) 0 := by
+  have hc : pyCut q.length 1 = 1 := by simp [pyCut]; omega
+  simp only [shiftBy, hc]
+  rw [List.getD_eq_getElem?_getD, List.getD_eq_getElem?_getD, List.getElem?_append_left (by simp; omega)]
+  simp
+
+theorem shiftBy_one_last (q : List Nat) (h : 0 < q.length) :
+    (shiftBy q 1).getD (q.length - 1) 0 = q.getD 0 0 := by
+  have hc : pyCut q.length 1 = 1 := by simp [pyCut]; omega
+  simp only [shiftBy, hc]
+  rw [List.getD_eq_getElem?_getD, List.getD_eq_getElem?_getD, List.getElem?_append_right (by simp)]
+  cases q with
+  | nil => simp at h
+  | cons a as => simp
+
 end SFV.Tdm
